@@ -148,27 +148,21 @@ def check(world, tier):
         to = e.args[1] if len(e.args) > 1 else None
         okc = isinstance(to, tuple) and to[0] == "r"
         c.ob(okc, "transfer-socket-connect in %s" % short(e.body), "connect() target of the per-transfer socket unknown", e.loc, nontrivial=False)
-    # every Ok return of the socket factory has a successful connect: the frame containing both
-    facs = set(e.ctx for e in conns)
-    for fid in facs:
-        path = eng.frame_bodies[fid].path
-        ef = world.run("fn:" + path)
-        cev = [x for x in ef.events if base_name(x) == "std::net::UdpSocket::connect"]
-        oks = [s_ for s_ in ef.finals if ret_discr(ef, s_) == 0]
-        c.need(len(oks), 1, "Ok return of the socket factory")
-        for s_ in oks:
-            good = False
-            for x in cev:
-                fc = failure_condition(ef, x)
-                if fc is not None and s_.ctx.entails_eq(lin.var(fc[0]), lin.const(0)):
-                    good = True
-            c.ob(good, "socket-returned-unconnected in %s" % short(path), "the per-transfer socket can be returned without a successful connect() to the requester: "
-                 "datagrams from other endpoints reach the transfer", sample={"Ok(socket)": "connect succeeded"})
-        # connect's address is the factory's remote parameter, which the handlers pass the requester
-        for x in cev:
-            to = x.args[1] if len(x.args) > 1 else None
-            okr = isinstance(to, tuple) and to[0] == "r" and to[1][0] == "P"
-            c.ob(okr, "connect-not-to-parameter in %s" % short(path), "connect() is not called with the remote address given to the factory", x.loc)
+    # every state in which a worker is started has either the channel-backed socket (single-port mode) or a UdpSocket whose
+    # connect() to the requester succeeded on that path (lemma L-CONN of C05, on the states that reach the worker's
+    # remote_addr().unwrap())
+    from .C05 import lemma_conn
+    lay = world.server_layout()
+    fi5 = {n: (tuple(lay[n]) if lay.get(n) is not None else None) for n in ("socket", "single_port", "largest_block_size", "clients", "duplicate_packets")}
+    self_root = ("P", ("L", eng.entry_frame, 1), ())
+    starts = [o for o in eng.obligations.values() if o.region == "listener" and o.kind == "unwrap" and isinstance(o.value, tuple) and o.value and o.value[0] == "t"
+              and isinstance(o.value[1], tuple) and o.value[1][0] == "app" and o.value[1][1] == "tftpd::socket::Socket::remote_addr"]
+    c.need(len(starts), 2, "worker starts on the listener (send and receive)")
+    for o in starts:
+        lemma, why = lemma_conn(world, eng, o, self_root, fi5)
+        c.ob(lemma is not None, "socket-returned-unconnected in %s" % short(o.body),
+             "a worker can be started on a per-transfer socket without a successful connect() to the requester: datagrams from other endpoints reach the transfer (%s)" % why,
+             o.loc, sample={"worker start": short(o.body), "socket": "channel-backed or connected"})
     # ---------------------------------------------------------------- d
     kinds = {v["name"]: i + 1 for i, v in enumerate(prog.adts[PACKET]["variants"])}
     illegal = None
